@@ -208,6 +208,18 @@ def gen_cases(ctx, n):
         for mode in ("t", "xqf", "tq", "xf"):
             out.append(Case("cli7 %s %s %s" % (mode, "bad" if badi is not None else "good", arch.hex()),
                             tags={"cli", "mode=" + mode}, note="bad" if badi is not None else None))
+    # (4b) MANY failing members: the exit status is non-zero however many fail (a count handed to exit() keeps its low 8 bits only)
+    for nbad, ntot in ([(256, 256), (256, 300), (512, 520), (255, 256), (257, 257)] if ctx.tier != "quick" else [(256, 256), (256, 300), (512, 512), (255, 255)]):
+        arch = b""
+        bad = set(r.sample(range(ntot), nbad))
+        for i in range(ntot):
+            d = S.rand_bytes(r, r.choice([1, 5]))
+            mem_b = stored_member(d, name=b"m%d" % i, level=r.choice([0, 1]))
+            if i in bad:
+                mem_b = mem_b[:-1] + bytes([mem_b[-1] ^ 0x01])
+            arch += mem_b
+        for mode in ("t", "xqf", "tq"):
+            out.append(Case("cli7 %s bad %s" % (mode, arch.hex()), tags={"cli", "mode=" + mode, "failing-members=%d" % nbad}, note="bad"))
     # (5) members that cannot be decoded at all: a genuine but unsupported method (-lh2-, -lh3-, ...), a MacLHA member cut inside its
     # first 128 decoded bytes. No bytes are produced, so the verdict must be bad - in the library and in the tool's exit status
     def judge_undecodable(c_out):
